@@ -122,6 +122,8 @@ func (f *PacketFiller) Fill(packet gopacket.SerializeBuffer, r *scan.Request) (e
 		// cat /proc/sys/net/ipv4/ip_local_port_range
 		SrcPort: layers.UDPPort(32768 + rand.Intn(61000-32768)),
 		DstPort: layers.UDPPort(r.DstPort),
+		// set explicitly: lengths are not fixed up when the IP total length is overridden
+		Length: uint16(8 + len(f.payload)),
 	}
 
 	if err = udp.SetNetworkLayerForChecksum(ip); err != nil {
